@@ -197,14 +197,19 @@ def _replay(ob):
 
     from ujvc.z3env import REPO_SRC
 
-    p = subprocess.run(["/venv/bin/python", "-c", REPLAY_SCRIPT], env=dict(os.environ, PYTHONPATH=REPO_SRC), capture_output=True, text=True, timeout=300)
+    p = __import__('ujvc.units', fromlist=['run_native_p']).run_native_p(["/venv/bin/python", "-c", REPLAY_SCRIPT], env=dict(os.environ, PYTHONPATH=REPO_SRC), timeout=300)
     return {"reproduced": p.returncode == 1, "detail": (p.stdout + p.stderr)[-3000:], "script": REPLAY_SCRIPT}
 
 
 REPLAYS = [("times.*", _replay)]
 
 
-@unit("times.native-differential[bounded]", props=["C18"], assumptions=["bounded stand-in: 4 time zones x 4 instant triples x 27 representations; 5 zones x 4 file mtimes"],
+@unit("times.native-differential[bounded]", props=["C18"],
+      functions=[("_transformations/caching.py", "_to_naive_utc_time"), ("_transformations/caching.py", "_get_stale_nodes.<locals>.process"),
+                 ("_transformations/caching.py", "_get_stale_nodes.<locals>.process_no_stale_ancestor"), ("_transformations/caching.py", "_get_stale_nodes"),
+                 ("_transformations/caching.py", "_get_stale_nodes.<locals>.process_with_callbacks"), ("stores/_file_store.py", "get_modified_time"),
+                 ("stores/_file_store.py", "FileStore.get_modified_time")],
+      assumptions=["bounded stand-in: 4 time zones x 4 instant triples x 27 representations; 5 zones x 4 file mtimes"],
       min_obligations=1, kind="bounded")
 def times_bounded(ctx):
     """bounded: the real uberjob.run on the same instants in naive-local / aware-UTC / aware-+05:30 form under 4 process time zones; file-store mtimes under 5 zones"""
